@@ -163,8 +163,8 @@ structure Catalog where
   frags : List Fragment
 deriving Repr, Inhabited
 
-/-- `Catalog::Catalog`: an unreadable catalogue sector makes the C++ `throw new
-    BadFileSystem` (a pointer, which no handler catches): abort -/
+/-- `Catalog::Catalog`: an unreadable catalogue sector throws BadFileSystem
+    (by value, after the repair; it used to be thrown by pointer, which no handler catches) -/
 def Catalog.read (fmt : Format) (loc : Nat) (m : Media) : Res Catalog :=
   let nfrag := if fmt == Format.WDFS then 2 else 1
   let rec go (k : Nat) (i : Nat) (acc : List Fragment) : Res (List Fragment) :=
@@ -173,7 +173,7 @@ def Catalog.read (fmt : Format) (loc : Nat) (m : Media) : Res Catalog :=
     | k + 1 =>
       match m (loc + 2 * i), m (loc + 2 * i + 1) with
       | some s0, some s1 => go k (i + 1) (Fragment.ofSectors fmt s0 s1 :: acc)
-      | _, _ => .abort "throw new BadFileSystem (Catalog::Catalog: unreadable catalogue sector)"
+      | _, _ => .err "BadFileSystem: the catalogue sectors cannot be read"
   match go nfrag 0 [] with
   | .ok fr => .ok { fmt := fmt, frags := fr }
   | .err e => .err e
@@ -336,7 +336,6 @@ def FileSystem.make (m : Media) (fmt : Format) (geom : Geometry) (ndebug : Bool)
       let assertOk :=
         if (b &&& 8) != 0 then fmt == Format.HDFS
         else if fmt == Format.HDFS then false
-        else if (b &&& 4) != 0 then fmt == Format.WDFS
         else true
       if !ndebug && !assertOk then .abort "assert in FileSystem::FileSystem (format vs sector 1 byte 6)"
       else .ok { fmt := fmt, geom := geom, vols := vols }
@@ -499,8 +498,12 @@ def probeGeometry (m : Media) (fmt : Format) (total : Nat) (cands : List ImgFmt)
 
 def endsWith (s suffix : String) : Bool := s.endsWith suffix
 
-/-- `make_candidate_list` -/
-def candidateList (name : String) : List ImgFmt :=
+/-- `remove_suffix(&name, ".gz")` -/
+def stripGz (name : String) : String := if name.endsWith ".gz" then (name.dropEnd 3).toString else name
+
+/-- `make_candidate_list` (after the repair: hints come from the name without `.gz`) -/
+def candidateList (fileName : String) : List ImgFmt :=
+  let name := stripGz fileName
   let ssd := endsWith name ".ssd"; let sdd := endsWith name ".sdd"
   let dsd := endsWith name ".dsd"; let ddd := endsWith name ".ddd"
   let ilHint : Option Bool := if dsd || ddd then some true else if ssd || sdd then some false else none
